@@ -280,6 +280,42 @@ def params_leg(ctx, vh, rng):
             ctx.broke("K", "uigen/objcode.rs verify_callback_parameter_type vs model/Callback.v", "model and implementation differ on %d parameter lists; first: %s expected %s" % (len(bad), terms[bad[0]][0], terms[bad[0]][1]))
 
 
+def anonymous_senders(ctx, vh, rng):
+    """handlers on objects WITHOUT an id, next to objects whose ids look like generated names (pushButton1, pushButton2 ...): every handler is connected to its own
+    object -- the sender names of the header are exactly the names the .ui gives the handler-carrying objects, each once"""
+    docs = []
+    for ids in ([None, None, None], ["pushButton1", None, None], [None, "pushButton1", None], ["pushButton", None, "pushButton1"], ["pushButton2", "pushButton1", None, None],
+                [None, None, "pushButton2", None], ["pushButton1", "pushButton3", None, None, None]):
+        for cls, sig in (("QPushButton", "onClicked"), ("QCheckBox", "onToggled")):
+            kids = ""
+            for k, i in enumerate(ids):
+                i2 = None if i is None else i.replace("pushButton", "checkBox") if cls == "QCheckBox" else i
+                kids += "    %s {\n%s        text: \"b%d\"\n        %s: edit.setText(\"h%d\")\n    }\n" % (cls, "" if i2 is None else "        id: %s\n" % i2, k, sig, k)
+            docs.append("import qmluic.QtWidgets\nQWidget {\n    QLineEdit { id: edit }\n%s}\n" % kids)
+    os.environ["VERIF_EXTRA_METATYPES"] = ""
+    res = qml.run_docs(vh, docs)
+    for d, r in zip(docs, res):
+        ctx.count(("anonymous-senders", d), True)
+        ctx.dist("handlers-on-anonymous-objects")
+        if not isinstance(r, dict) or not r.get("header") or r.get("ui") is None or any(x["kind"] == "error" for x in r["diags"]):
+            ctx.violation("a document of handlers on id-less buttons is not accepted: %s" % (str(r.get("diags") if isinstance(r, dict) else r)[:200]), {"qml": d})
+            continue
+        root = qml.parse_ui(r["ui"])
+        by_text = {}
+        for w in root.iter("widget"):
+            for p in w.findall("property"):
+                if p.get("name") == "text" and p[0].text and p[0].text.startswith("b"):
+                    by_text[p[0].text] = w.get("name")
+        names = list(by_text.values())
+        senders = re.findall(r"QObject::connect\(this->ui_->(\w+),", r["header"])
+        # which handler body runs for which sender: setText("hK") inside the function the connect names
+        if len(set(names)) != len(names):
+            ctx.violation("two of the buttons get the same name in the .ui (%s): a handler cannot be connected to its own object" % sorted(names), {"qml": d, "impl_output": r["ui"]})
+        elif sorted(senders) != sorted(names):
+            ctx.violation("the handlers are connected to the senders %s; the handler-carrying objects are named %s" % (sorted(senders), sorted(names)),
+                          {"qml": d, "impl_output": r["header"], "theorem_or_correspondence": "S: one connection per handler, to the declaring object"})
+
+
 def describe_pv(v):
     return {0: "accepted", 1: "refused (too many parameters)"}.get(v[0], "refused (parameters %s do not fit)" % v[1:])
 
@@ -332,6 +368,7 @@ def run(ctx):
     ctx.coverage["handlers_accepted"] = len(acc)
     overload_leg(ctx, vh, rng)
     names_leg(ctx, vh, rng)
+    anonymous_senders(ctx, vh, rng)
     params_leg(ctx, vh, rng)
     os.environ["VERIF_EXTRA_METATYPES"] = cxx.write_e0w()
     # ---- rejections the property names
